@@ -17,6 +17,7 @@ import (
 	"regexp"
 	"sort"
 	"strings"
+	"sync"
 	"testing"
 	"time"
 
@@ -1715,4 +1716,191 @@ func TestC19_FailureBursts(t *testing.T) {
 		c.Same.Fresh, c.Other.Fresh = c.Fresh, c.Fresh
 		return c
 	})
+}
+
+// ---------------------------------------------------------------------------
+// Path shapes, enumerated: "all methods and paths". A path is bytes on the wire, characters after decoding, and text in
+// a log line; code that measures it one way and cuts it the other (length in bytes, slice in runes; escaped length,
+// unescaped index) fails only where the two differ by enough — a long run of multi-byte or escaped characters. The
+// random histories carry a handful of fixed hostile paths; here unit x count is swept.
+
+type c19PathShapeCase struct {
+	Prefix string `json:"prefix"`
+	Unit   string `json:"unit"`
+	Count  int    `json:"count"`
+	Post   bool   `json:"post"`
+}
+
+func checkC19PathShape(c c19PathShapeCase) verdict {
+	sv := server()
+	path := c.Prefix + strings.Repeat(c.Unit, c.Count)
+	method, body := "GET", []byte(nil)
+	if c.Post {
+		method, body = "POST", []byte(`{"secret":"GEZDGNBVGY3TQOJQGEZDGNBVGY3TQOJQ","counter":1}`)
+	}
+	labels := []string{"unit=" + fmt.Sprintf("%q", c.Unit), "method=" + method}
+	st, rb, err := rawHTTP(sv.addr, method, path, body, 5*time.Second)
+	if err != nil {
+		if st, rb, err = rawHTTP(sv.addr, method, path, body, 15*time.Second); err != nil {
+			if !sv.alive() {
+				return bad(true, labels, "%s %s%q x %d (%d bytes): no complete response (%v) and the server process died: %s", method, c.Prefix, c.Unit, c.Count, len(path), err, tailStr(sv.stderr.String(), 600))
+			}
+			return bad(true, labels, "%s %s%q x %d (%d bytes): no complete HTTP response within 5 s and again within 15 s: %v", method, c.Prefix, c.Unit, c.Count, len(path), err)
+		}
+	}
+	if st < 100 || st > 599 {
+		return bad(true, labels, "%s %s%q x %d: status %d", method, c.Prefix, c.Unit, c.Count, st)
+	}
+	if len(rb) > 1<<20 {
+		return bad(true, labels, "%s %s%q x %d: an answer of %d bytes", method, c.Prefix, c.Unit, c.Count, len(rb))
+	}
+	labels = append(labels, fmt.Sprintf("status=%dxx", st/100))
+	if !sv.alive() {
+		return bad(true, labels, "after %s %s%q x %d the server process died: %s", method, c.Prefix, c.Unit, c.Count, tailStr(sv.stderr.String(), 800))
+	}
+	if sv.stderr.alarm() {
+		return bad(true, labels, "the server reports an unrecovered panic, a fatal error or a data race: %s", trunc(sv.stderr.String(), 1500))
+	}
+	return ok(true, labels...)
+}
+
+var c19PathShape = newPart("C19", "path-shapes",
+	"complete product: prefixes {/, /totp/generate/, /docs/} x 14 units (ASCII letter, 2- / 3- / 4-byte characters raw and percent-encoded, an encoded ASCII letter, an encoded slash, NUL and blank encoded, a dot segment, a plus, a combining mark) x 34 counts around 16 / 32 / 64 / 100 / 128 / 256 / 512 / 1024 / 2048 (byte length and character count on different sides of each) x {GET, POST}; invariant: a complete HTTP response (one lone retry with 15 s), status 100..599, an answer below 1 MiB, the process alive and no unrecovered panic, every 100th request followed by the RFC probe; every case distinct and non-trivial",
+	checkC19PathShape)
+
+func TestC19_PathShapes(t *testing.T) {
+	defer c19PathShape.rec().Flush()
+	sv := server()
+	units := []string{"a", "é", "%C3%A9", "€", "%E2%82%AC", "\U0001F600", "%F0%9F%98%80", "%41", "%2F", "%00", "%20", "./", "+", "é"}
+	counts := []int{1, 2, 3, 5, 8, 15, 16, 17, 21, 22, 31, 32, 33, 40, 42, 43, 63, 64, 65, 85, 86, 100, 127, 128, 129, 170, 255, 256, 257, 500, 512, 1023, 1024, 2048}
+	i := 0
+	for _, prefix := range []string{"/", "/totp/generate/", "/docs/"} {
+		for _, u := range units {
+			for _, n := range counts {
+				for _, post := range []bool{false, true} {
+					i++
+					if !ev.Mine(i) {
+						continue
+					}
+					c19PathShape.each(t, c19PathShapeCase{Prefix: prefix, Unit: u, Count: n, Post: post})
+					if i%100 < ev.Get().NShards {
+						if st, pb, perr := rawHTTP(sv.addr, "POST", "/hotp/generate", []byte(`{"secret":"GEZDGNBVGY3TQOJQGEZDGNBVGY3TQOJQ","counter":1,"digits":"6","algorithm":"SHA1"}`), 5*time.Second); perr != nil || st != 200 || !strings.Contains(string(pb), `"287082"`) {
+							c19PathShape.rec().Flush()
+							t.Fatalf("C19/path-shapes: probe after %d requests: status %d body %s err %v", i, st, trunc(string(pb), 200), perr)
+						}
+					}
+				}
+			}
+		}
+	}
+	c19PathShape.rec().Exhaustive()
+}
+
+// ---------------------------------------------------------------------------
+// Stalled requests. "Whatever a client sends" includes a request that stops in the middle: the header block never
+// finished, a body shorter than its Content-Length, a chunked body without its last chunk. The client then waits. The
+// service ends such an exchange in bounded time — with a response, or by closing the connection — because it reads
+// with a time limit (5 s on the pinned tree). A service without one keeps the connection and its worker for ever.
+
+type c19StallCase struct {
+	Shape string `json:"shape"` // headers | body | chunked | request-line
+	Ep    string `json:"ep"`
+}
+
+// stalled sends the beginning of a request and reports how long the server took to end the exchange (response or close).
+func stalled(addr string, head string, limit time.Duration) (ended bool, took time.Duration, got string) {
+	c, err := net.DialTimeout("tcp", addr, 5*time.Second)
+	if err != nil {
+		return true, 0, "dial: " + err.Error()
+	}
+	defer c.Close()
+	t0 := time.Now()
+	c.SetDeadline(t0.Add(limit))
+	if _, err := c.Write([]byte(head)); err != nil {
+		return true, time.Since(t0), "write: " + err.Error()
+	}
+	buf := make([]byte, 4096)
+	var all []byte
+	for {
+		n, rerr := c.Read(buf)
+		all = append(all, buf[:n]...)
+		if rerr != nil {
+			if ne, isNet := rerr.(net.Error); isNet && ne.Timeout() {
+				return false, time.Since(t0), trunc(string(all), 80)
+			}
+			return true, time.Since(t0), trunc(string(all), 80) // EOF or reset: the server ended the exchange
+		}
+	}
+}
+
+func checkC19Stall(c c19StallCase) verdict {
+	sv := server()
+	path := postEndpoints[c.Ep]
+	body := `{"secret":"GEZDGNBVGY3TQOJQGEZDGNBVGY3TQOJQ","counter":1,"timestamp":59,"code":"123456"}`
+	var head string
+	switch c.Shape {
+	case "request-line":
+		head = "POST " + path + " HTT"
+	case "headers":
+		head = "POST " + path + " HTTP/1.1\r\nHost: x\r\nContent-Type: application/json\r\nContent-Le"
+	case "body":
+		head = fmt.Sprintf("POST %s HTTP/1.1\r\nHost: x\r\nContent-Type: application/json\r\nContent-Length: %d\r\n\r\n%s", path, len(body)+77, body[:43])
+	case "chunked":
+		head = fmt.Sprintf("POST %s HTTP/1.1\r\nHost: x\r\nContent-Type: application/json\r\nTransfer-Encoding: chunked\r\n\r\n%x\r\n%s\r\n", path, len(body), body)
+	}
+	labels := []string{"shape=" + c.Shape, "ep=" + c.Ep}
+	ended, took, got := stalled(sv.addr, head, 40*time.Second)
+	if !ended {
+		// alone once more, with the patience of the most generous read limits in use (two minutes): neither machine load nor a
+		// longer limit than the pinned tree's produces a verdict
+		if ended2, took2, _ := stalled(sv.addr, head, 130*time.Second); !ended2 {
+			return bad(true, labels, "a request to %s that stops in the middle (%s: %q...): the server neither answered nor closed the connection within %v and again within %v (received so far: %q); it reads without a time limit, so every such client holds a connection for ever", path, c.Shape, trunc(head, 90), took.Round(time.Second), took2.Round(time.Second), got)
+		}
+	}
+	labels = append(labels, fmt.Sprintf("ended-after<=%ds", int(took/time.Second)+1))
+	if st, pb, perr := rawHTTP(sv.addr, "POST", "/hotp/generate", []byte(`{"secret":"GEZDGNBVGY3TQOJQGEZDGNBVGY3TQOJQ","counter":1,"digits":"6","algorithm":"SHA1"}`), 5*time.Second); perr != nil || st != 200 || !strings.Contains(string(pb), `"287082"`) {
+		return bad(true, labels, "probe after the stalled request: status %d body %s err %v", st, trunc(string(pb), 200), perr)
+	}
+	if !sv.alive() {
+		return bad(true, labels, "the server process died: %s", tailStr(sv.stderr.String(), 800))
+	}
+	return ok(true, labels...)
+}
+
+var c19Stall = newPart("C19", "stalled-requests",
+	"complete product: 4 ways a request stops in the middle (inside the request line, inside the header block, a body shorter than its Content-Length, a chunked body without its last chunk) x 2 POST endpoints, all sent at once, the client then waits; invariant: the server ends each exchange - a response or a closed connection - within 40 s (the pinned tree: its 5 s read limit; one lone retry with 130 s, above the most generous read limits in use), and the RFC probe afterwards is answered correctly; every case distinct and non-trivial",
+	checkC19Stall)
+
+func TestC19_StalledRequests(t *testing.T) {
+	defer c19Stall.rec().Flush()
+	server()
+	var cases []c19StallCase
+	i := 0
+	for _, shape := range []string{"request-line", "headers", "body", "chunked"} {
+		for _, ep := range []string{"hotp-gen", "totp-val"} {
+			if i++; ev.Mine(i) {
+				cases = append(cases, c19StallCase{Shape: shape, Ep: ep})
+			}
+		}
+	}
+	// all of this shard's cases wait at the same time (each waits for the server's read limit); verdicts are recorded in order
+	vs := make([]verdict, len(cases))
+	var wg sync.WaitGroup
+	for k := range cases {
+		wg.Add(1)
+		go func(k int) {
+			defer wg.Done()
+			vs[k] = checkC19Stall(cases[k])
+		}(k)
+	}
+	wg.Wait()
+	for k, c := range cases {
+		c19Stall.rec().Case(c, vs[k].NT, vs[k].Labels...)
+		if vs[k].Err != nil {
+			p := ev.WriteReplay("C19", "stalled-requests", c, vs[k].Err)
+			c19Stall.rec().Flush()
+			t.Fatalf("C19/stalled-requests violated: %v [replay %s]", vs[k].Err, p)
+		}
+	}
+	c19Stall.rec().Exhaustive()
 }
